@@ -38,7 +38,10 @@ type c02Case struct {
 	MaxWorkers uint64
 	DNSTTLms   int  // > 0: the attacker also gets DNSCaching(ttl), whose refresh goroutine must end with the attack
 	MaxFirst   bool `json:",omitempty"` // the MaxWorkers option is given before the Workers option
-	Script     []c02Act
+	// further attacker options, which must not change how many hits may be in flight (the connection
+	// options limit connections, not workers; no connection is ever opened here)
+	Opts   []string `json:",omitempty"`
+	Script []c02Act
 }
 
 func (c c02Case) String() string {
@@ -49,6 +52,9 @@ func (c c02Case) String() string {
 	}
 	if c.MaxFirst {
 		b.WriteString(" max-workers-option-first")
+	}
+	if len(c.Opts) > 0 {
+		fmt.Fprintf(&b, " options%v", c.Opts)
 	}
 	for _, a := range c.Script {
 		fmt.Fprintf(&b, " %s", a.K)
@@ -153,6 +159,9 @@ func execC02(c c02Case) (res c02Result, err error) {
 	opts := []func(*vegeta.Attacker){vegeta.Client(&http.Client{Transport: htr}), vegeta.Workers(c.Workers), vegeta.MaxWorkers(c.MaxWorkers)}
 	if c.MaxFirst {
 		opts[1], opts[2] = opts[2], opts[1]
+	}
+	for _, o := range c.Opts {
+		opts = append(opts, c02Options[o])
 	}
 	if c.DNSTTLms > 0 {
 		opts = append(opts, vegeta.DNSCaching(time.Duration(c.DNSTTLms)*time.Millisecond))
@@ -753,6 +762,14 @@ func runC02(c c02Case) error {
 	return err
 }
 
+var c02Options = map[string]func(*vegeta.Attacker){
+	"max-connections=1": vegeta.MaxConnections(1), "max-connections=2": vegeta.MaxConnections(2), "connections=1": vegeta.Connections(1),
+	"keepalive=false": vegeta.KeepAlive(false), "http2=false": vegeta.HTTP2(false), "timeout=1h": vegeta.Timeout(time.Hour), "redirects=0": vegeta.Redirects(0),
+	"max-body=0": vegeta.MaxBody(0), "chunked": vegeta.ChunkedBody(true),
+}
+
+var c02OptionNames = []string{"max-connections=1", "max-connections=2", "connections=1", "keepalive=false", "http2=false", "timeout=1h", "redirects=0", "max-body=0", "chunked"}
+
 var c02Kinds = []string{"tick", "tick", "tick", "tick", "burst", "bad", "complete", "complete", "completeerr", "consume", "consume", "consume", "stop", "pstop", "fail", "sleep"}
 
 func c02Classify(c c02Case, res c02Result) (bool, []string) {
@@ -786,14 +803,21 @@ func c02Classify(c c02Case, res c02Result) (bool, []string) {
 
 func TestC02Random(t *testing.T) {
 	vh.Regress(t, c02Prop())
+	vh.ShrinkTime("20s")
 	vh.Check(t, 500, 20000, func(t *rapid.T) {
 		c := c02Case{}
 		if rapid.IntRange(0, 3).Draw(t, "small") != 0 {
 			c.MaxWorkers = uint64(rapid.IntRange(1, 3).Draw(t, "max"))
 			c.Workers = uint64(rapid.IntRange(0, 3).Draw(t, "workers"))
+		} else if rapid.IntRange(0, 3).Draw(t, "large") == 0 {
+			c.MaxWorkers = uint64(rapid.IntRange(65, 300).Draw(t, "maxl")) // (pools that grow past a hundred workers)
+			c.Workers = uint64(rapid.SampledFrom([]int{0, 1, 10, 127, 128, 129, 300}).Draw(t, "workersl"))
 		} else {
 			c.MaxWorkers = uint64(rapid.IntRange(1, 64).Draw(t, "max"))
 			c.Workers = uint64(rapid.IntRange(0, 70).Draw(t, "workers"))
+		}
+		if rapid.IntRange(0, 2).Draw(t, "withopts") == 0 {
+			c.Opts = rapid.SliceOfNDistinct(rapid.SampledFrom(c02OptionNames), 1, 3, func(s string) string { return s }).Draw(t, "opts")
 		}
 		if rapid.IntRange(0, 3).Draw(t, "dns") == 0 {
 			c.DNSTTLms = rapid.SampledFrom([]int{5, 50, 1000}).Draw(t, "dnsttl")
@@ -818,7 +842,7 @@ func TestC02Random(t *testing.T) {
 			case "stop":
 				a.A = rapid.SampledFrom([]int{1, 1, 2, 3, 8}).Draw(t, fmt.Sprintf("a%d", i))
 			case "burst":
-				a.A = rapid.SampledFrom([]int{2, 2, 3, 5, 16, 64}).Draw(t, fmt.Sprintf("a%d", i))
+				a.A = rapid.SampledFrom([]int{2, 2, 3, 5, 16, 64, 1000, 1000}).Draw(t, fmt.Sprintf("a%d", i)) // (1000: all free capacity)
 			}
 			c.Script = append(c.Script, a)
 		}
@@ -891,7 +915,7 @@ func TestC02Exhaustive(t *testing.T) {
 				if a.K == "complete" && a.A == -1 && res.started < 2 {
 					continue // oldest == newest
 				}
-				next := c02Case{Workers: c.Workers, MaxWorkers: c.MaxWorkers, DNSTTLms: c.DNSTTLms, MaxFirst: c.MaxFirst, Script: append(append([]c02Act(nil), c.Script...), a)}
+				next := c02Case{Workers: c.Workers, MaxWorkers: c.MaxWorkers, DNSTTLms: c.DNSTTLms, MaxFirst: c.MaxFirst, Opts: c.Opts, Script: append(append([]c02Act(nil), c.Script...), a)}
 				if depth == 1 { // shard on (config, first two actions)
 					unit++
 					if unit%shards != shard {
@@ -910,7 +934,11 @@ func TestC02Exhaustive(t *testing.T) {
 			}
 			saved := maxLen
 			maxLen = ml
-			dfs(c02Case{Workers: wk, MaxWorkers: mx, DNSTTLms: int(wk%2) * 50}, 0) // odd initial worker counts also get DNSCaching
+			var o []string
+			if mx >= 2 && wk <= 1 {
+				o = []string{"max-connections=1"} // a connection limit below max-workers
+			}
+			dfs(c02Case{Workers: wk, MaxWorkers: mx, DNSTTLms: int(wk%2) * 50, Opts: o}, 0) // odd initial worker counts also get DNSCaching
 			if wk > mx {
 				// the two options given in the other order (matters only here), to a smaller depth
 				if maxLen > 5 {
